@@ -3,11 +3,11 @@ import MenelausVerif.Model.Election
 namespace MV.Driver
 open MV MV.Election
 
-def voteOf (f : List Drift → Drift) : List String → Option String
+private def voteOf (f : List Drift → Drift) : List String → Option String
   | "vote" :: ts => (parseDrifts? ts).map (fun vs => (f vs).toStr)
   | _ => none
 
-def confirmedStep (e : Confirmed) : List String → Option (String × Confirmed)
+private def confirmedStep (e : Confirmed) : List String → Option (String × Confirmed)
   | "vote" :: ts => do
     let vs ← parseDrifts? ts
     let (v, e') := e.call vs
